@@ -338,6 +338,313 @@ Proof.
     intros v. destruct (Z_le_gt_dec 0 v); [apply D0; auto|apply der_zero; lia].
 Qed.
 
+(* ================================================================ NON-VACUITY (audit)
+   Every theorem above with hypotheses is APPLIED to a concrete instance, all hypotheses discharged at
+   once.  Instances: the parameter examples above (ex_..., sh_...), a two-child union with parameters
+   (u2_...), and the univariate specification ex_spec  (L = 1 + x*L: class 0 = class 1 + class 2,
+   class 1 = epsilon, class 2 = class 3 x class 0, class 3 = the atom)  with its true counts lw. *)
+(* the true counts of ex_spec: L = 1 + x*L *)
+Definition lw (c : nat) (n : Z) : Z :=
+  match c with
+  | 0%nat => if n <? 0 then 0 else 1
+  | 1%nat => if n =? 0 then 1 else 0
+  | 2%nat => if n <? 1 then 0 else 1
+  | 3%nat => if n =? 1 then 1 else 0
+  | _ => 0
+  end.
+Definition lT := T_of lw.
+
+Lemma l_class_wf l : class_wf nopars lT l.
+Proof.
+  split; [constructor|]. split; [intros []|]. intros n t [<-|[]]. reflexivity.
+Qed.
+Lemma l_kid_wf c : kid_wf nopars lT [] (c, []).
+Proof.
+  split; [apply l_class_wf|]. cbn [fst snd map]. split; [constructor|].
+  split; [intros x []|]. split; [intros x []|]. intros cv [].
+Qed.
+Lemma l_cnt c n e : cnt (lT c n) e = if leqb [] e then lw (Z.to_nat c) n else 0.
+Proof. unfold cnt, lT, T_of. simpl. destruct (leqb [] e); lia. Qed.
+Lemma l_cnt_rk c n e :
+  cnt (map (fun t => (rk [] [] [] (fst t), snd t)) (lT c n)) e = if leqb [] e then lw (Z.to_nat c) n else 0.
+Proof. unfold cnt, lT, T_of. simpl. destruct (leqb [] e); lia. Qed.
+
+Lemma l_union_genuine : union_genuine nopars lT 0 [(1, []); (2, [])].
+Proof.
+  intros n Hn e. cbn [psum fst snd nopars]. rewrite l_cnt, !l_cnt_rk.
+  destruct (leqb [] e); [|reflexivity]. simpl.
+  destruct (Z.ltb_spec n 0); [lia|]. destruct (Z.eqb_spec n 0); destruct (Z.ltb_spec n 1); lia.
+Qed.
+Lemma l_atom_genuine1 : atom_genuine lT 1 0.
+Proof.
+  intros n Hn e. rewrite l_cnt. simpl. destruct (n =? 0); destruct (leqb [] e); reflexivity.
+Qed.
+Lemma l_atom_genuine3 : atom_genuine lT 3 1.
+Proof.
+  intros n Hn e. rewrite l_cnt. simpl. destruct (n =? 1); destruct (leqb [] e); reflexivity.
+Qed.
+Lemma l_empty_genuine : empty_genuine lT 7.
+Proof. intros n e. rewrite l_cnt. simpl. destruct (leqb [] e); reflexivity. Qed.
+
+Example C20_union_equation_satisfied_plain : forall N,
+  satisfied nopars lT noO [0] N (RUnion (mkorule 0 [1; 2] [[]; []])).
+Proof.
+  intros N.
+  exact (C20_union_equation_satisfied nopars lT noO [0] 0 [(1, []); (2, [])] N (l_class_wf 0)
+           (Forall_cons _ (l_kid_wf 1) (Forall_cons _ (l_kid_wf 2) (Forall_nil _))) l_union_genuine).
+Qed.
+
+(* coefficients compared on V = [0] only depend on m 0 *)
+Lemma pcoef_x P m : pcoef [0] P m = pcoef [0] P (xmono (m 0)).
+Proof. apply pcoef_target_ext. intros u [<-|[]]. reflexivity. Qed.
+
+Lemma l_product_genuine : product_genuine nopars lT [0] 2 [(3, []); (0, [])] 3.
+Proof.
+  intros m Hm. rewrite (pcoef_x (cser _ _)), (pcoef_x (prod_left _)).
+  assert (m 0 = 0 \/ m 0 = 1 \/ m 0 = 2 \/ m 0 = 3) as [E|[E|[E|E]]] by lia;
+    rewrite E; vm_compute; reflexivity.
+Qed.
+(* covers C20_product_equation_satisfied once more, without parameters, on infinite classes:
+   class 2 = atom x . class 0, at order 3 *)
+Example C20_product_equation_satisfied_plain :
+  satisfied nopars lT noO [0] 3 (RProduct (mkorule 2 [3; 0] [[]; []])).
+Proof.
+  exact (C20_product_equation_satisfied nopars lT noO [0] 2 [(3, []); (0, [])] 3 (l_class_wf 2)
+           (Forall_cons _ (conj (l_kid_wf 3) (NoDup_nil _)) (Forall_cons _ (conj (l_kid_wf 0) (NoDup_nil _)) (Forall_nil _)))
+           l_product_genuine).
+Qed.
+Lemma l_no_params p cs : no_params nopars p cs.
+Proof. split; [reflexivity|]. intros; reflexivity. Qed.
+(* covers C20_complement_equation_satisfied:  F_2 = F_0 - F_1 *)
+Example C20_complement_equation_satisfied_nonvacuous : forall N,
+  satisfied nopars lT noO [0] N (RRevUnion (mkorule 0 [1; 2] [[]; []]) 1).
+Proof.
+  intros N.
+  exact (C20_complement_equation_satisfied nopars lT noO [0] 0 [1; 2] 1%nat N (l_no_params 0 [1; 2])
+           (l_class_wf 0) (fun c _ => l_class_wf c) l_union_genuine ltac:(simpl; lia)).
+Qed.
+(* covers C20_quotient_equation_satisfied:  F_0 = F_2 / F_3, read as F_0 * F_3 = F_2 *)
+Example C20_quotient_equation_satisfied_nonvacuous :
+  satisfied nopars lT noO [0] 3 (RRevProduct (mkorule 2 [3; 0] [[]; []]) 1).
+Proof.
+  exact (C20_quotient_equation_satisfied nopars lT noO [0] 2 [3; 0] 1%nat 3 (l_no_params 2 [3; 0])
+           (l_class_wf 2) (fun c _ => l_class_wf c) l_product_genuine ltac:(simpl; lia)).
+Qed.
+Example C20_reverse_equations_value :
+  rule_equation nopars (RRevUnion (mkorule 0 [1; 2] [[]; []]) 1) =
+    Ok (Fun 2 [Var 0]) (Sub (Fun 0 [Var 0]) (Fun 1 [Var 0])) /\
+  rule_equation nopars (RRevProduct (mkorule 2 [3; 0] [[]; []]) 1) =
+    Ok (Fun 0 [Var 0]) (Div (Fun 2 [Var 0]) (Fun 3 [Var 0])).
+Proof. split; reflexivity. Qed.
+
+(* covers C20_atom_equation_satisfied (inside l_sat_atom1 / l_sat_atom3 below) and C20_unique_series:
+   ---- lw is a solution of ex_spec (every emitted equation, at every order) *)
+Lemma zsum_delta_at a lo hi (g : Z -> Z) :
+  zsum lo hi (fun i => (if i =? a then 1 else 0) * g i) = if (lo <=? a) && (a <? hi) then g a else 0.
+Proof.
+  unfold zsum. destruct ((lo <=? a) && (a <? hi)) eqn:E.
+  - apply andb_true_iff in E. destruct E as [E1 E2]. apply Z.leb_le in E1. apply Z.ltb_lt in E2.
+    rewrite (psum_single _ (zrange lo hi) a).
+    + rewrite Z.eqb_refl. lia.
+    + apply zrange_nodup.
+    + apply in_zrange. lia.
+    + intros x _ Hx. destruct (Z.eqb_spec x a); [congruence|lia].
+  - apply psum_zero. intros x Hx. apply in_zrange in Hx.
+    destruct (Z.eqb_spec x a); [|lia]. subst x.
+    apply andb_false_iff in E. destruct E as [E|E]; [apply Z.leb_gt in E|apply Z.ltb_ge in E]; lia.
+Qed.
+
+Lemma l_sat_union : satisfies lw 0 (UUnion [1%nat; 2%nat]).
+Proof. intros N _. exact (C20_union_equation_satisfied_plain N). Qed.
+Lemma l_sat_atom1 : satisfies lw 1 (UAtom 0).
+Proof.
+  intros N _.
+  exact (C20_atom_equation_satisfied nopars lT noO [0] 1 0 N eq_refl ltac:(lia) (or_introl eq_refl) l_atom_genuine1).
+Qed.
+Lemma l_sat_atom3 : satisfies lw 3 (UAtom 1).
+Proof.
+  intros N _.
+  exact (C20_atom_equation_satisfied nopars lT noO [0] 3 1 N eq_refl ltac:(lia) (or_introl eq_refl) l_atom_genuine3).
+Qed.
+Lemma l_sat_product : satisfies lw 2 (UProduct [(3%nat, 1); (0%nat, 0)]).
+Proof.
+  apply product_sat_intro. intros N n Hn. cbn [map fst conv].
+  transitivity (zsum 0 (N + 1) (fun i => (if i =? 1 then 1 else 0) *
+                  zsum 0 (N + 1) (fun j => (if j =? n - i then 1 else 0) * lw 0 j))).
+  - rewrite zsum_delta_at. rewrite zsum_delta_at. simpl.
+    destruct (Z.ltb_spec n 1).
+    + destruct (Z.ltb_spec 1 (N + 1)); simpl; [|reflexivity].
+      destruct (Z.leb_spec 0 (n - 1)); [lia|reflexivity].
+    + assert (1 <? N + 1 = true) as -> by (apply Z.ltb_lt; lia).
+      assert (0 <=? n - 1 = true) as -> by (apply Z.leb_le; lia).
+      assert (n - 1 <? N + 1 = true) as -> by (apply Z.ltb_lt; lia).
+      simpl. destruct (Z.ltb_spec (n - 1) 0); [lia|reflexivity].
+  - apply zsum_ext. intros i Hi. f_equal. apply zsum_ext. intros j Hj.
+    rewrite Z.mul_comm. f_equal.
+    destruct (Z.eqb_spec j (n - i)); destruct (Z.eqb_spec (n - i - j) 0); lia.
+Qed.
+
+Lemma l_solution : solution ex_spec lw.
+Proof.
+  split; [|split].
+  - intros [|[|[|[|c]]]] m Hm; simpl; auto.
+    + destruct (Z.ltb_spec m 0); [reflexivity|lia].
+    + destruct (Z.eqb_spec m 0); [lia|reflexivity].
+    + destruct (Z.ltb_spec m 1); [reflexivity|lia].
+    + destruct (Z.eqb_spec m 1); [lia|reflexivity].
+  - intros [|[|[|[|c]]]] r E; try discriminate; injection E as <-.
+    + exact l_sat_union.
+    + exact l_sat_atom1.
+    + exact l_sat_product.
+    + exact l_sat_atom3.
+  - intros [|[|[|[|c]]]] kids E; try discriminate. injection E as <-.
+    intros k m [<-|[<-|[]]] Hm; simpl in *.
+    + destruct (Z.eqb_spec m 1); [lia|reflexivity].
+    + destruct (Z.ltb_spec m 0); [reflexivity|lia].
+Qed.
+
+Example C20_atom_equation_satisfied_nonvacuous : forall N,
+  satisfied nopars lT noO [0] N (RAtom 3 1) /\ satisfied nopars lT noO [0] N (RAtom 1 0).
+Proof.
+  intros N. split.
+  - exact (C20_atom_equation_satisfied nopars lT noO [0] 3 1 N eq_refl ltac:(lia) (or_introl eq_refl) l_atom_genuine3).
+  - exact (C20_atom_equation_satisfied nopars lT noO [0] 1 0 N eq_refl ltac:(lia) (or_introl eq_refl) l_atom_genuine1).
+Qed.
+
+(* covers C20_unique_series: BOTH `solution` hypotheses are satisfiable on a four-class specification
+   with a union, a product with a declared minimum size and two atoms (l_solution: T := lw), and every
+   other solution is forced to the true counts on the pumping class *)
+Example C20_unique_series_nonvacuous :
+  forall U : nat -> Z -> Z, solution ex_spec U -> U 0%nat 5 = 1.
+Proof.
+  intros U HU. destruct C20_ex_unique_hypotheses as (K & W & P).
+  apply (C20_unique_series ex_spec ex_keys K W lw U l_solution HU 0%nat P 5). lia.
+Qed.
+
+(* covers C20_union_equation_satisfied with TWO children and parameters: the words a^n together with
+   the words b^n (n >= 1), k = number of a's; the children call the statistic 3 resp. 4 *)
+Definition u2_pars (l : Z) : list Z := match l with 0 => [1] | 1 => [3] | 2 => [4] | _ => [] end.
+Definition u2_T (l n : Z) : list (list Z * Z) :=
+  match l with
+  | 0 => ([n], 1) :: (if 1 <=? n then [([0], 1)] else [])
+  | 1 => [([n], 1)]
+  | 2 => if 1 <=? n then [([0], 1)] else []
+  | _ => []
+  end.
+Definition u2_kids : list (Z * list (Z * Z)) := [(1, [(1, 3)]); (2, [(1, 4)])].
+Lemma u2_class_wf l : l = 0 \/ l = 1 \/ l = 2 -> class_wf u2_pars u2_T l.
+Proof.
+  intros Hl. split; [|split].
+  - destruct Hl as [-> | [-> | ->]]; simpl; repeat constructor; simpl; intuition discriminate.
+  - destruct Hl as [-> | [-> | ->]]; simpl; intuition discriminate.
+  - intros n t. destruct Hl as [-> | [-> | ->]]; simpl; destruct (1 <=? n); simpl; intuition (subst; reflexivity).
+Qed.
+Lemma u2_kids_wf : Forall (kid_wf u2_pars u2_T (u2_pars 0)) u2_kids.
+Proof.
+  constructor; [|constructor; [|constructor]]; unfold kid_wf; cbn [fst snd map].
+  - split; [apply u2_class_wf; auto|]. split; [repeat constructor; simpl; intuition discriminate|].
+    split; [intros x [<-|[]]; simpl; auto|]. split; [intros x [<-|[]]; simpl; auto|].
+    intros cv [<-|[]]; reflexivity.
+  - split; [apply u2_class_wf; auto|]. split; [repeat constructor; simpl; intuition discriminate|].
+    split; [intros x [<-|[]]; simpl; auto|]. split; [intros x [<-|[]]; simpl; auto|].
+    intros cv [<-|[]]; reflexivity.
+Qed.
+Lemma u2_genuine : union_genuine u2_pars u2_T 0 u2_kids.
+Proof. intros n Hn e. unfold cnt. simpl. destruct (1 <=? n); simpl; unfold aget; simpl; lia. Qed.
+Example C20_union_equation_satisfied_nonvacuous : forall N,
+  satisfied u2_pars u2_T (fun _ => []) [0; 1] N (RUnion (mkorule 0 [1; 2] [[(1, 3)]; [(1, 4)]])).
+Proof.
+  intros N.
+  exact (C20_union_equation_satisfied u2_pars u2_T (fun _ => []) [0; 1] 0 u2_kids N
+           (u2_class_wf 0 (or_introl eq_refl)) u2_kids_wf u2_genuine).
+Qed.
+Example C20_union_equation_value :
+  rule_equation u2_pars (RUnion (mkorule 0 [1; 2] [[(1, 3)]; [(1, 4)]])) =
+    Ok (Fun 0 [Var 0; Var 1]) (Add (Add (Const 0) (Fun 1 [Var 0; Var 1])) (Fun 2 [Var 0; Var 1])) /\
+  ~ holds (SN u2_T 1) (fun _ => []) [0; 1] 1 (Fun 0 [Var 0; Var 1]) (Add (Const 0) (Fun 1 [Var 0; Var 1])).
+Proof.
+  split; [reflexivity|].
+  intros [p [q [Hp [Hq H]]]]. vm_compute in Hp, Hq. injection Hp as <-. injection Hq as <-.
+  specialize (H (fun u => if u =? 0 then 1 else 0)).
+  vm_compute in H. assert (1 = 0) as E by (apply H; split; discriminate). discriminate E.
+Qed.
+
+(* covers C20_product_equation_satisfied (two factors, two parameters each) *)
+Example C20_product_equation_satisfied_nonvacuous :
+  satisfied sh_pars sh_T (fun _ => []) sh_V 2 (RProduct (mkorule 0 (map fst sh_kids) (map snd sh_kids))).
+Proof.
+  destruct C20_ex_product_shifted_names as (_ & W & Wk & G & _).
+  exact (C20_product_equation_satisfied sh_pars sh_T (fun _ => []) sh_V 0 sh_kids 2 W Wk G).
+Qed.
+
+(* covers C20_reverse_with_parameters_falls_back *)
+Example C20_reverse_with_parameters_falls_back_nonvacuous :
+  rule_equation ex_pars (RRevUnion (mkorule 0 [5; 1] [[]; [(1, 3); (2, 3)]]) 1) =
+    rule_equation ex_pars (RUnion (mkorule 0 [5; 1] [[]; [(1, 3); (2, 3)]])) /\
+  rule_equation ex_pars (RRevProduct (mkorule 0 [5; 1] [[]; [(1, 3); (2, 3)]]) 1) =
+    rule_equation ex_pars (RProduct (mkorule 0 [5; 1] [[]; [(1, 3); (2, 3)]])).
+Proof.
+  exact (C20_reverse_with_parameters_falls_back ex_pars (mkorule 0 [5; 1] [[]; [(1, 3); (2, 3)]]) 1%nat eq_refl).
+Qed.
+Example C20_reverse_fallback_discriminates :
+  rule_equation ex_pars (RRevUnion (mkorule 0 [5; 1] [[]; [(1, 3); (2, 3)]]) 1) =
+    Ok (Fun 0 [Var 0; Var 1; Var 2])
+       (Add (Add (Const 0) (Fun 5 [Var 0])) (Fun 1 [Var 0; Mul (Var 1) (Var 2)])) /\
+  rule_equation nopars (RRevUnion (mkorule 0 [1; 2] [[]; []]) 1) <>
+    rule_equation nopars (RUnion (mkorule 0 [1; 2] [[]; []])).
+Proof. split; [reflexivity|discriminate]. Qed.
+
+(* covers C20_equivalence_equation_satisfied: the union rule 0 -> (5, 1) whose first child is empty *)
+Example C20_equivalence_equation_satisfied_nonvacuous : forall N,
+  satisfied ex_pars ex_T (fun _ => []) [0; 1; 2] N
+    (REquivUnion (mkorule 0 [5; 1] [[]; [(1, 3); (2, 3)]]) 1).
+Proof.
+  intros N. destruct C20_ex_union_merge as (_ & W0 & Wk & G & _).
+  apply (C20_equivalence_equation_satisfied ex_pars ex_T (fun _ => []) [0; 1; 2]
+           (mkorule 0 [5; 1] [[]; [(1, 3); (2, 3)]]) 1%nat N W0 (Forall_inv Wk) G).
+Qed.
+
+(* covers C20_path_equation_satisfied: a path of a reverse (Complement) step and a forward step *)
+Example C20_path_equation_satisfied_nonvacuous : forall N,
+  satisfied ex_pars ex_T (fun _ => []) [0; 1; 2] N
+    (RPath 0 [(true, [(7, 1); (8, 2)]); (false, [(7, 3); (8, 3)])] 1).
+Proof.
+  intros N. destruct C20_ex_union_merge as (_ & W0 & Wk & G & _).
+  apply (C20_path_equation_satisfied ex_pars ex_T (fun _ => []) [0; 1; 2] 0
+           [(true, [(7, 1); (8, 2)]); (false, [(7, 3); (8, 3)])] 1 [(1, 3); (2, 3)] N
+           eq_refl W0 (Forall_inv Wk) G).
+Qed.
+Example C20_path_equation_value :
+  rule_equation ex_pars (RPath 0 [(true, [(7, 1); (8, 2)]); (false, [(7, 3); (8, 3)])] 1) =
+    Ok (Fun 0 [Var 0; Var 1; Var 2]) (Add (Const 0) (Fun 1 [Var 0; Mul (Var 1) (Var 2)])).
+Proof. reflexivity. Qed.
+
+(* covers C20_empty_equation_satisfied *)
+Example C20_empty_equation_satisfied_nonvacuous : forall N, satisfied nopars lT noO [0] N (REmpty 7).
+Proof. intros N. exact (C20_empty_equation_satisfied nopars lT noO [0] 7 N l_empty_genuine). Qed.
+(* the equation of an empty class is NOT satisfied by a non-empty class *)
+Example C20_empty_equation_discriminates : ~ satisfied nopars lT noO [0] 1 (REmpty 3).
+Proof.
+  intros [p [q [Hp [Hq H]]]]. vm_compute in Hp, Hq. injection Hp as <-. injection Hq as <-.
+  specialize (H (fun u => if u =? 0 then 1 else 0)).
+  vm_compute in H. assert (1 = 0) as E by (apply H; split; discriminate). discriminate E.
+Qed.
+
+(* covers C20_verified_equation_satisfied: a user verification strategy for the atom of size 1 whose own series is x *)
+Definition vO (l : Z) : poly := if l =? 3 then [(mvar 0, 1)] else [].
+Example C20_verified_equation_satisfied_nonvacuous : satisfied nopars lT vO [0] 2 (RVerified 3).
+Proof.
+  apply (C20_verified_equation_satisfied nopars lT vO [0] 3 2).
+  intros m Hm. rewrite (pcoef_x (cser _ _)), (pcoef_x (vO 3)).
+  assert (m 0 = 0 \/ m 0 = 1 \/ m 0 = 2) as [E|[E|E]] by lia; rewrite E; vm_compute; reflexivity.
+Qed.
+Example C20_verified_equation_discriminates : ~ satisfied nopars lT vO [0] 2 (RVerified 1).
+Proof.
+  intros [p [q [Hp [Hq H]]]]. vm_compute in Hp, Hq. injection Hp as <-. injection Hq as <-.
+  specialize (H (fun u => 0)).
+  vm_compute in H. assert (1 = 0) as E by (apply H; split; discriminate). discriminate E.
+Qed.
+
 Print Assumptions C20_union_equation_satisfied.
 Print Assumptions C20_product_equation_satisfied.
 Print Assumptions C20_reverse_with_parameters_falls_back.
